@@ -15,6 +15,7 @@ EXPLANATION = ("The escape functions are per-byte transducers; their loop bodies
 TRUSTED = ['String::from_utf8 / Cow semantics', 'the for loop visits the bytes in order (std enumerate)']
 UNDECIDED = ['the RFC 4514 parser side (none in the repository)', 'round-trip equality of whole strings (the per-byte transducer is decided)']
 ASSUMPTIONS = []
+SHARED = [('C08', ('P1.entry',), 'E6.filter-compiler-reads-the-whole-input')]      # the escaped value is embedded in a filter string: the compiler must read that string as given, to its last octet
 
 RFC4514_SPECIAL = set(b'"+,;<>\\') | {0}
 ASCII_PUNCT = set(b'!"#$%&\'()*+,-./:;<=>?@[\\]^_`{|}~')
